@@ -421,3 +421,56 @@ class RaceSuite(SchedSuite):
                 return Verdict(False, False, "the Go race detector reports a data race: %s" % "; ".join(where))
             return Verdict(False, False, "process crashed: %s" % msg[-300:])
         return super().judge(op, impl, model)
+
+
+class FollowSend(SendFilter):
+    """C18 (last clause) and C11 (follow-path configurations): a view filtered by FollowPaths transfers as a self-contained tree in which
+    every requested path resolves as in the source"""
+    name = "followsend"
+    focus = ("c01", "c11")
+    unpriv_share = 0
+    n_cases = {"quick": 400, "thorough": 8000, "search": 150}
+    rule = ("link trees of the followlinks suite (relative, absolute, '..', chained, cyclic, dangling links) x request lists as FilterOpt.FollowPaths "
+            "(optionally with include patterns); real Send over NewFilterFS + Receive into an empty destination; STAT log vs the model's filtered view; "
+            "oracle: destination = view (C01), link names closed (C11), every requested path without wildcard resolves in the destination to the same "
+            "location, kind and bytes as in the source (C18); non-trivial = >= 1 symlink and >= 1 request")
+
+    def gen_case(self, rng):
+        from . import follow
+        tree, paths = follow.link_tree(rng)
+        for e in tree:
+            if e["t"] == "file":
+                e["size"] = rng.choice([1, 5, 100])
+        reqs = []
+        for _ in range(rng.randint(1, 3)):
+            r = rng.random()
+            if r < 0.7 and paths:
+                q = rng.choice(paths)
+                if rng.random() < 0.3:
+                    q = q + b"/" + rng.choice(follow.NAMES)
+            elif r < 0.8:
+                q = b"../" + rng.choice(follow.NAMES)
+            else:
+                q = b"/".join(rng.choice(follow.NAMES) for _ in range(rng.randint(1, 3)))
+            reqs.append(q)
+        sf = {"follow": [hx(q) for q in reqs]}
+        if rng.random() < 0.25 and paths:
+            sf["include"] = [hx(rng.choice(paths))]
+        return {"op": "sync", "src": {"kind": "mem" if rng.random() < 0.8 else "disk", "tree": tree}, "dst": [], "sfilter": sf,
+                "opt": {"notify": True, "cap": rng.choice([0, 4, 32]), "seed": rng.randrange(1 << 30)}}
+
+    def judge(self, op, impl, model):
+        v = super().judge(op, impl, model)
+        if v.spec_ok is not False and model.get("follow") is False:
+            return Verdict(v.agree, False, "C18: %s; %s" % (model.get("follow_why"), v.note))
+        return v
+
+    def nontrivial(self, op, impl, model):
+        return any(e["t"] == "symlink" for e in op["src"]["tree"]) and bool(op["sfilter"].get("follow"))
+
+    matchers = {
+        # F12 / F19: FollowLinks returned an include set that is not closed for these requests (see the followlinks suite): the transferred
+        # tree then lacks a link target. Signature: implementation = model and the reference says the include set is not closed.
+        "F19": lambda op, impl, model: model.get("follow_spec") is False and model.get("follow") is False
+        and [norm_stat(s) for s in sent_stats(impl)] == [norm_stat(s) for s in model.get("sent", [])],
+    }
